@@ -280,6 +280,13 @@ func vTransOK(t pr.SDimensions) bool {
 // to everything painted for the box (the group is drawn once, after the outlines, on the original canvas).
 //@ func (drawContext).drawStackingContext$1
 //@   props C14 C16
+// opacity applies to the whole sub-tree of the box that declares it, whatever else the box declares (a hidden box may
+// have visible descendants): the box is drawn in a group exactly when its computed opacity is below 1, and that
+// opacity is the one the group is composited with
+//@   assert after opacity#1: opacity == fl(callresult(GetOpacity, 1))
+//@   call getMatrix#1 assert[opacity-as-computed] opacity == fl(callresult(GetOpacity, 1))
+//@   call getMatrix#1 assert[group-when-translucent] opacity < 1 ==> calls(NewGroup) == 1
+//@   call getMatrix#1 assert[no-group-when-opaque] opacity >= 1 ==> calls(NewGroup) == 0
 //@   call drawBackgroundDefaut#1 assert[background-first] arg1 == box_.Box().Background && calls(drawBorder) == 0 && calls(OnNewStack) == 0 && calls(drawOutlines) == 0
 //@   call drawBorder#1 assert[then-border] arg1 == box_ && calls(drawBackgroundDefaut) == 1 && calls(OnNewStack) == 0
 //@   call OnNewStack#1 assert[then-content] calls(drawOutlines) == 0 && arg0 == ctx.dst
@@ -622,3 +629,22 @@ func vGradientLayouts() (n int, fails []string) {
 
 //@ bounded vGradientLayouts every linear / radial gradient over 9 directions and shapes x 576 lists of two or three colour stops (positions none, -10px, 0px, 5px, 10px, 10.000001px, 50%, 120%) x repeating or not x 3 box sizes, laid out and drawn on a no-op canvas: no panic, finite stop positions, colours and coordinates
 //@   props C01 C14
+
+// the two insertion helpers of the dispatch shift the tail by one and keep every other element at its place, in
+// order (tree order of the child contexts and of the blocks depends on it)
+//@ func insertStackingContext
+//@   props C16
+//@   requires a != nil && 0 <= i && i <= len(*a)
+//@   modifies anything
+//@   ensures[length] len(*a) == old(len(*a)) + 1
+//@   ensures[inserted] (*a)[i].box == item.box && (*a)[i].zIndex == item.zIndex
+//@   ensures[head-kept] forall(k, 0, i, (*a)[k].box == old((*a)[k].box) && (*a)[k].zIndex == old((*a)[k].zIndex))
+//@   ensures[tail-shifted-in-order] forall(k, i, old(len(*a)), (*a)[k+1].box == old((*a)[k].box) && (*a)[k+1].zIndex == old((*a)[k].zIndex))
+//@ func insertBox
+//@   props C16
+//@   requires a != nil && 0 <= i && i <= len(*a)
+//@   modifies anything
+//@   ensures[length] len(*a) == old(len(*a)) + 1
+//@   ensures[inserted] (*a)[i] == item
+//@   ensures[head-kept] forall(k, 0, i, (*a)[k] == old((*a)[k]))
+//@   ensures[tail-shifted-in-order] forall(k, i, old(len(*a)), (*a)[k+1] == old((*a)[k]))
